@@ -186,7 +186,7 @@ package keeper
 //@   ensures err == nil ==> Validators == old(Validators)[va := Validators[va]] && Validators[va] != None
 //@        && val(Validators[va]).ConsPower == 1 && val(Validators[va]).OperatorAddress == valStr(va)
 //@        && val(Validators[va]).ConsensusPubkey != None && val(val(Validators[va]).ConsensusPubkey).cachedValue == pk           // C13: stores_validator_with_power_one
-//@   ensures err == nil ==> ValidatorsByConsAddr == old(ValidatorsByConsAddr)[cons := Some(va)]                                // C13: key_index_follows
+//@   ensures err == nil ==> ValidatorsByConsAddr == old(ValidatorsByConsAddr)[cons := Some(va)]                                // C13,C16: key_index_follows
 //@   ensures err == nil ==> LastValidatorPowers == old(LastValidatorPowers) && Params == old(Params)
 //@   assigns Validators[va], ValidatorsByConsAddr[cons], events
 
@@ -265,7 +265,7 @@ package keeper
 //@   requires forall k bytes :: Validators[k] != None ==> implements(val(val(Validators[k]).ConsensusPubkey).cachedValue, "github.com/cosmos/cosmos-sdk/crypto/types.PubKey")    // INV_VAL K4
 //@   ensures old(Validators)[address] == None ==> err == nil && Validators == old(Validators) && ValidatorsByConsAddr == old(ValidatorsByConsAddr)     // C13: removing_an_unknown_validator_is_a_no_op
 //@   ensures err == nil && old(Validators)[address] != None ==> Validators == old(Validators)[address := None]
-//@        && ValidatorsByConsAddr == old(ValidatorsByConsAddr)[cons := None]                                                                            // C13: record_and_key_index_entry_removed_together
+//@        && ValidatorsByConsAddr == old(ValidatorsByConsAddr)[cons := None]                                                                            // C13,C16: record_and_key_index_entry_removed_together
 //@   assigns Validators[address], ValidatorsByConsAddr[cons]
 
 //@ func (Keeper) ApplyAndReturnValidatorSetUpdates
@@ -319,7 +319,7 @@ package keeper
 //@   ensures err == nil ==> forall k bytes :: k != pva && V0[k] != None ==> Validators[k] != None && val(Validators[k]).ConsPower == 0
 //@        && val(Validators[k]).OperatorAddress == val(V0[k]).OperatorAddress && val(Validators[k]).ConsensusPubkey == val(V0[k]).ConsensusPubkey   // C14: every_other_validator_unbonded
 //@   ensures err == nil ==> forall k bytes :: k != pva && V0[k] == None ==> Validators[k] == None                                          // C14: no_other_record_created
-//@   ensures err == nil ==> ValidatorsByConsAddr == old(ValidatorsByConsAddr)[pcons := Some(pva)]                                          // C14: key_index_follows
+//@   ensures err == nil ==> ValidatorsByConsAddr == old(ValidatorsByConsAddr)[pcons := Some(pva)]                                          // C14,C16: key_index_follows
 //@   ensures err == nil ==> LastValidatorPowers == old(LastValidatorPowers)
 //@   ensures err == nil ==> Params != None && old(Params) != None && val(Params).BridgeExecutors == plan.NextExecutors && val(Params).Admin == val(old(Params)).Admin
 //@        && val(Params).MaxValidators == val(old(Params)).MaxValidators && val(Params).HookMaxGas == val(old(Params)).HookMaxGas          // C14,C12: executors_replaced_exactly
